@@ -200,7 +200,10 @@ fn export<'tcx>(tcx: TyCtxt<'tcx>) {
             _ => None,
         };
         if let Some(body) = body {
-            fns.push(export_fn(&cx, ldid, kind, body));
+            fns.push(export_fn(&cx, ldid, kind, body, None));
+            for (pi, pbody) in tcx.promoted_mir(did).iter_enumerated() {
+                fns.push(export_fn(&cx, ldid, kind, pbody, Some(pi.as_usize())));
+            }
         }
     }
 
@@ -487,7 +490,13 @@ fn const_value<'tcx>(cx: &Cx<'tcx>, cv: ConstValue, t: Ty<'tcx>) -> J {
     }
 }
 
-fn export_fn<'tcx>(cx: &Cx<'tcx>, ldid: LocalDefId, kind: DefKind, body: &Body<'tcx>) -> J {
+fn export_fn<'tcx>(
+    cx: &Cx<'tcx>,
+    ldid: LocalDefId,
+    kind: DefKind,
+    body: &Body<'tcx>,
+    promoted: Option<usize>,
+) -> J {
     let tcx = cx.tcx;
     let did = ldid.to_def_id();
     let (file, line) = cx.span(tcx.def_span(did));
@@ -587,9 +596,13 @@ fn export_fn<'tcx>(cx: &Cx<'tcx>, ldid: LocalDefId, kind: DefKind, body: &Body<'
         ]));
     }
     let sig_args: Vec<J> = body.args_iter().map(|l| J::s(cx.ty(body.local_decls[l].ty))).collect();
+    let (fpath, fkind) = match promoted {
+        Some(i) => (format!("{}::promoted[{}]", cx.path(did), i), "Promoted".to_string()),
+        None => (cx.path(did), format!("{:?}", kind)),
+    };
     J::obj(vec![
-        ("path", J::s(cx.path(did))),
-        ("kind", J::s(format!("{:?}", kind))),
+        ("path", J::s(fpath)),
+        ("kind", J::s(fkind)),
         ("file", J::s(file)),
         ("line", J::Int(line as i128)),
         ("vis", J::s(vis_str(tcx, did))),
